@@ -17,8 +17,8 @@ META = {
     "design_ref": "DESIGN.md §3 E2, §4 C30",
 }
 
-QUICK = dict(depth=3, kw=["none", "osf", "minr"], legacy_kw=["none", "osf"], max_regs=1)
-THOROUGH = dict(depth=4, kw=["none", "osf", "minr", "compact"], legacy_kw=["none", "osf"], max_regs=2)
+QUICK = dict(depth=3, kw=["none", "osf", "minr", "maxx"], legacy_kw=["none", "osf"], max_regs=1)
+THOROUGH = dict(depth=4, kw=["none", "osf", "minr", "maxx", "compact"], legacy_kw=["none", "osf"], max_regs=2)
 
 _FRESH = r"""
 import json, sys
